@@ -381,12 +381,14 @@ class Repo:
         """Linearisation good enough for single/multiple inheritance in this package (depth-first, left-to-right, dedup keeping last)."""
         out = []
 
-        def go(k):
+        def go(k, stack):
             out.append(k)
             for b in self.bases(k):
-                go(b)
+                if any(b is x for x in stack):
+                    continue  # a base that resolves to the class itself (name re-bound in the module): not an ancestor
+                go(b, stack + [b])
 
-        go(c)
+        go(c, [c])
         # dedup keeping last occurrence (approximates C3 for diamond)
         seen = set()
         res = []
